@@ -99,8 +99,13 @@ def reach_sigma(i: int, j: int, k: int, n: int, v: int, shape: int) -> bool:
     text = O.spell(tokens)
     p = JSONPointer(text, unicode_escape=UE)
     got = p.resolve(doc)
-    return ok(why(_is_node(got, v), "resolved to another value", text, got) and p.exists(doc)
-              and _is_node(ptr_resolve(text, doc, unicode_escape=UE), v))
+    if not (why(_is_node(got, v), "resolved to another value", text, got) and p.exists(doc)
+            and _is_node(ptr_resolve(text, doc, unicode_escape=UE), v)):
+        return ok(False)
+    # resolution that also hands back the parent reaches the same node, below the node one token shorter
+    parent, node = p.resolve_parent(doc)
+    up = JSONPointer(O.spell(tokens[:-1]), unicode_escape=UE).resolve(doc)
+    return ok(why(_is_node(node, v) and parent is up, "resolve_parent", text, node))
 
 
 def _excluded(t: str) -> bool:
